@@ -155,7 +155,8 @@ def rule_ws_api(ctx, rep):
             ("word_to_digit::FindNumbers::<'a, L, T, I>::outside_number", 'core::str::trim')}
     have = set(uni)
     for w in sorted(want):
-        rep.check(w in have, R, 'unicode-site|%s' % w[0].split('::')[-1], '%s uses %s' % w,
+        rep.check(any(h[1] == w[1] and (h[0] == w[0] or h[0].startswith(w[0] + '::{closure')) for h in have), R,
+                  'unicode-site|%s' % w[0].split('::')[-1], '%s uses %s' % w,
                   'whitespace classification in %s no longer uses the Unicode predicate %s' % w)
     en = [u for u in have if 'lang::en::English' in u[0] and 'basic_annotate' in u[0]]
     rep.check(bool(en), R, 'unicode-site|English::basic_annotate', 'the significance filter of the English annotation pass uses %s' % [e[1] for e in en],
@@ -220,10 +221,23 @@ def rule_tokenizer_tiling(ctx, rep):
         ok = len(idx) == 1 and re.match(r'^Index::index\(self\.source, Range\(\(Iterator::next\(self\.chars\) as Some\)\.0\.0, \w+\)\)$', qn.desc(idx[0]) or '')
         rep.check(bool(ok), R, 'next|slice', 'token = source[pos..end] with pos from chars.next()', 'token slice is `%s`' % (qn.desc(idx[0]) if idx else None))
         x = qn.x
-        ends = sorted({untag(pretty(x.desc_rvalue(rv))) if False else short_callee(d[2].get('callee')) for l in range(len(x.m['locals']))
-                       if x.names.get(l) == 'end' for d in x.whole_defs(l) if d[0] == 'call'})
-        rep.check(ends == ['Tokenize::match_sep', 'Tokenize::match_word'], R, 'next|end', 'end is the helper\'s return value, unmodified',
-                  '`end` is defined by %s' % ends)
+        ends = []
+        if idx:
+            rng = qn.term(idx[0])['args'][1]
+            rl = rng['pl']['l'] if 'pl' in rng else None
+            ds = x.whole_defs(rl) if rl is not None else []
+            if len(ds) == 1 and ds[0][0] == 'assign' and ds[0][3]['rv']['k'] == 'agg' and len(ds[0][3]['rv']['ops']) == 2:
+                e_op = ds[0][3]['rv']['ops'][1]
+                el = e_op['pl']['l'] if 'pl' in e_op else None
+                for _ in range(4):
+                    dd = x.whole_defs(el) if el is not None else []
+                    if len(dd) == 1 and dd[0][0] == 'assign' and dd[0][3]['rv']['k'] == 'use' and 'pl' in dd[0][3]['rv']['op'] and not dd[0][3]['rv']['op']['pl']['p']:
+                        el = dd[0][3]['rv']['op']['pl']['l']
+                    else:
+                        break
+                ends = sorted({short_callee(d[2].get('callee')) for d in (x.whole_defs(el) if el is not None else []) if d[0] == 'call'})
+        rep.check(ends == ['Tokenize::match_sep', 'Tokenize::match_word'], R, 'next|end', 'the slice end is the helper\'s return value, unmodified',
+                  'the slice end is defined by %s' % ends)
         mw = qn.calls('Tokenize::match_word')
         ms = qn.calls('Tokenize::match_sep')
         ok = len(mw) == 1 and len(ms) == 1 and any('is_alphanumeric' in z and not z.startswith('!') for z in qn.facts(mw[0])) and \
